@@ -6,9 +6,10 @@ import itertools
 import random
 from typing import Callable, Dict, Iterable, List, Optional, Sequence, Tuple
 
-from .gram import ActSpec, B, C, Grammar, N, P, Ref, T, X, STATE, FAM
+from .gram import ActSpec, B, C, Grammar, N, P, Ref, T, X, STATE, FAM, RACT
 
 A_, B_, C_ = 97, 98, 99   # 'a' 'b' 'c'
+IFAPPLY_ENABLED = True    # apply< A... > / if_apply< R, A... > in the corpus (needs the model's ifApply / applyR kinds)
 ROM_ENABLED = True        # contrib rep_one_min_max in the corpus (needs the model's repOne atom)
 
 # ---------------------------------------------------------------- probes: sub-rules with a known behaviour class
@@ -29,6 +30,8 @@ def probes(raisers: bool = True, heavy: bool = False):
         ps += [
             ('musta', 'raiser', lambda g: P('must', P('one', C(A_)))),
             ('a_mustb', 'raiser', lambda g: P('seq', P('one', C(A_)), P('must', P('one', C(B_))))),
+            ('a_raise', 'raiser', lambda g: P('seq', P('one', C(A_)), P('raise', P('one', C(B_))))),
+            ('b_or_raisemsg', 'raiser', lambda g: P('sor', P('one', C(B_)), P('raise_message', C(109), C(115), C(103)))),
         ]
     if heavy:
         ps += [
@@ -47,6 +50,30 @@ def probes(raisers: bool = True, heavy: bool = False):
 
 # ---------------------------------------------------------------- kinds: public rule templates with typed slots
 # (name, number of rule slots, builder(slots...) -> T, family)
+
+_ract_counter = [2000000]
+
+
+RACT_MODE = ['mixed']     # 'void' while a corpus is generated for a profile judged by the PEG formalism (actions must not affect matching)
+
+
+def rule_acts(rng: random.Random, mode: str = 'mixed'):
+    """One to three rule-level action classes with unique ids; void, vetoing bool, throwing."""
+    if RACT_MODE[0] == 'void':
+        mode = 'void'
+    nothrow = (RACT_MODE[0] == 'novoid-throw')      # void and vetoing classes only
+    out = []
+    for _ in range(rng.choice([1, 1, 2, 3])):
+        _ract_counter[0] += 1
+        q = rng.random()
+        if mode == 'void' or q < 0.4:
+            out.append(RACT(_ract_counter[0]))
+        elif q < 0.75 or nothrow:
+            out.append(RACT(_ract_counter[0], True, rng.choice([2, 3, 3, 5])))
+        else:
+            out.append(RACT(_ract_counter[0], rng.random() < 0.4, rng.choice([0, 3]), rng.choice([3, 4, 5]), rng.random() < 0.5))
+    return out
+
 
 def kinds(core_only: bool = False, raisers: bool = True):
     ks = [
@@ -93,6 +120,13 @@ def kinds(core_only: bool = False, raisers: bool = True):
         ('state_d', 1, lambda x: P('state', STATE(1), x), 'state'),
         ('state_c2', 2, lambda x, y: P('state', STATE(0), x, y), 'state'),
     ]
+    if IFAPPLY_ENABLED:
+        r0 = random.Random(4711)
+        ks += [
+            ('if_apply1', 1, lambda x: P('if_apply', x, *rule_acts(r0)), 'apply'),
+            ('if_apply1v', 1, lambda x: P('if_apply', x, *rule_acts(r0, 'void')), 'apply'),
+            ('seq_apply', 1, lambda x: P('seq', x, P('apply', *rule_acts(r0))), 'apply'),
+        ]
     for n in range(0, 4):
         ks.append((f'rep{n}', 1, (lambda n: lambda x: P('rep', N(n), x))(n), 'rep'))
         if n > 0:   # rep_opt< 0, R > with a single rule is an ambiguous partial specialisation in internal/rep_opt.hpp (does not compile)
@@ -316,9 +350,11 @@ class RandGen:
                     'star_partial', 'rematch', 'list', 'pad', 'minus', 'list_tail', 'rep_min', 'pad_opt']
             if self.raisers:
                 ops += ['must', 'if_must', 'opt_must', 'try_catch_return_false', 'try_catch_raise_nested', 'star_must',
-                        'if_must_else', 'list_must']
+                        'if_must_else', 'list_must', 'raise']
         if self.switches:
             ops += ['state', 'state', 'state', 'enable', 'disable']
+        if IFAPPLY_ENABLED and not self.core_only:
+            ops += ['if_apply', 'apply']
         if consuming:
             ops = [o for o in ops if o not in ('until', 'star', 'opt', 'at', 'not_at', 'rep_opt', 'strict', 'partial', 'star_partial',
                                                'star_strict', 'opt_must', 'star_must', 'pad_opt')]
@@ -379,6 +415,12 @@ class RandGen:
             return P('pad', E(consuming, guarded), P('one', C(C_)))
         if op == 'pad_opt':
             return P('pad_opt', E(False, guarded), P('one', C(C_)))
+        if op == 'raise':
+            # a raise rule never matches: keep an alternative or a prefix so that the grammar is not trivially failing
+            rr = P('raise', self.atom(True)) if r.random() < 0.6 else P('raise_message', C(101), C(114), C(114), C(48 + r.randint(0, 9)))
+            if r.random() < 0.5:
+                return P('sor', E(consuming, guarded), rr)
+            return P('seq', E(True, guarded), rr)
         if op == 'must':
             return P('must', E(consuming, guarded))
         if op == 'if_must':
@@ -391,6 +433,11 @@ class RandGen:
             return P('star_must', E(True, guarded), E(False, True))
         if op in ('try_catch_return_false', 'try_catch_raise_nested'):
             return P(op, E(consuming, guarded))
+        if op == 'if_apply':
+            return P('if_apply', E(consuming, guarded), *rule_acts(r, 'mixed' if self.raisers else 'void'))
+        if op == 'apply':
+            ap = P('apply', *rule_acts(r, 'mixed' if self.raisers else 'void'))
+            return P('seq', E(True, guarded), ap) if consuming else ap
         if op == 'state':
             return P('state', STATE(r.random() < 0.4), E(consuming, guarded))
         if op in ('enable', 'disable'):
@@ -414,6 +461,10 @@ def attach_actions(rng: random.Random, g: Grammar, mode: str):
     switch: bool-style actions plus disable_action / enable_action / change_action< family 1 > bases, and a second action family."""
     g.acts.clear()
     g.fams.clear()
+    if mode.endswith('+msg'):
+        # custom error_message members on a quarter of the named rules (message text -> rule id is registered in the harness)
+        mode = mode[:-4]
+        g.messages = {rid: f"custom message of rule {rid}" for rid in g.named if rng.random() < 0.25}
     if mode == 'none':
         return
     if mode in ('switch', 'states'):
